@@ -10,7 +10,9 @@ dictionary `PrepareFlush`.
 import LinVerif.Lemmas.C07Resolve
 import LinVerif.Lemmas.C07Replay
 import LinVerif.Lemmas.C07Lanes
+import LinVerif.Lemmas.C07Grid
 import LinVerif.Generated.C07
+import LinVerif.Generated.C07Loops
 
 namespace LinVerif.Props.C07
 set_option maxRecDepth 100000
@@ -217,6 +219,9 @@ theorem stored_never_decreases (cfg : Cfg) (hx : cfg.ignoreExact = true) (evs : 
   case append m t => apply hif; split <;> rfl
   case appendBad => apply hif; split <;> rfl
   case foreignWrite m t => apply hif; simp
+  case foreignNames m t => apply hif; simp
+  case foreignMetric m => exact hif _ _ rfl
+  case foreignTagv m t => exact hif _ _ rfl
   case applyBegin =>
     apply hif; split
     · rfl
@@ -901,5 +906,156 @@ theorem sequence_maps_are_code :
     ackSequenceFnArgs = ["seqForLeader.Load()"] ∧
     flushMemDBCallbackArgs = ["seq"] ∧ flushMemDBSequenceArgs = ["leader, seq"] ∧
     newLocalReplicatorResetArgs = ["lr.AckIndex() + 1"] := by decide
+
+/-! ### several shards x several family hours x several leaders on one node (the outer loops)
+
+`Grid` (Model/C07Grid.lean) is the product of the single-partition model over all log partitions
+`<shard>/<family hour>/<leader>` of a node. Database-level flush steps reach every lane, shard-level ones the
+lanes of the shard, family-level ones the leaders of that family; a row written by one partition reaches
+the others as the names it creates; `crash` is global; `restart` is the whole recovery walk and
+`walkCrash n mid` a process death inside it. Every statement below is over ALL grid histories. -/
+
+/-- every partition of every reachable grid state is the single-partition model run on the partition's own
+projection `laneTrace` of the grid history -/
+theorem grid_lane_is_partition_history (cfg : Cfg) (keys : List PKey) (gevs : List GEv) (p : PKey × St)
+    (hp : p ∈ runGrid cfg (Grid.init keys) gevs) :
+    p.2 = run cfg St.init (laneTrace cfg (Grid.init keys) gevs p.1) :=
+  grid_trace cfg keys gevs p hp
+
+/-- the grid keeps its partitions: no grid event adds, drops or renames a lane -/
+theorem grid_keeps_partitions (cfg : Cfg) (keys : List PKey) (gevs : List GEv) :
+    (runGrid cfg (Grid.init keys) gevs).map (·.1) = keys := by
+  rw [runGrid_keys]; simp [Grid.init, List.map_map, Function.comp_def]
+
+/-- no logged write is lost, in every partition of every shard and family hour, at every point of every grid
+history (crashes, whole and interrupted recovery walks, WAL GC ticks, Close and shutdown included) -/
+theorem no_loss_grid (cfg : Cfg) (hx : cfg.ignoreExact = true) (hc : cfg.atomicAcquire = true)
+    (keys : List PKey) (gevs : List GEv) (k : PKey) (st : St)
+    (hl : (k, st) ∈ runGrid cfg (Grid.init keys) gevs) (s : Int) (m t : Nat)
+    (h0 : 0 ≤ s) (hs : st.log[s.toNat]? = some (some (m, t))) :
+    (∃ r ∈ fileRows st, r.seq = s ∧ r.metric = m ∧ r.tagv = t) ∨
+    (st.groupAck < s ∧ st.gcLow ≤ s ∧ st.walGone = false) := by
+  have he := grid_trace cfg keys gevs (k, st) hl
+  simp only [] at he
+  subst he
+  exact no_loss cfg hx hc _ s m t h0 hs
+
+theorem no_replay_below_grid (cfg : Cfg) (hx : cfg.ignoreExact = true) (hc : cfg.atomicAcquire = true)
+    (keys : List PKey) (gevs : List GEv) (k : PKey) (st : St)
+    (hl : (k, st) ∈ runGrid cfg (Grid.init keys) gevs) (fl : InFlight) (h : st.inflight = some fl) :
+    ov st.stored < fl.seq := by
+  have he := grid_trace cfg keys gevs (k, st) hl
+  simp only [] at he
+  subst he
+  exact no_replay_below cfg hx hc _ fl h
+
+theorem ack_le_stored_grid (cfg : Cfg) (hx : cfg.ignoreExact = true) (hc : cfg.atomicAcquire = true)
+    (keys : List PKey) (gevs : List GEv) (k : PKey) (st : St)
+    (hl : (k, st) ∈ runGrid cfg (Grid.init keys) gevs) (s : Int) (h0 : 0 ≤ s) (hs : s ≤ st.groupAck) :
+    s ≤ ov st.stored ∨ Bad st s := by
+  have he := grid_trace cfg keys gevs (k, st) hl
+  simp only [] at he
+  subst he
+  exact ack_le_stored cfg hx hc _ s h0 hs
+
+/-- a partition whose log directory the WAL garbage collector removed (`destroy`'s loop over ALL partitions
+of the node) had every entry with rows in a durable data file of ITS family -/
+theorem wal_gone_all_flushed_grid (cfg : Cfg) (hx : cfg.ignoreExact = true) (hc : cfg.atomicAcquire = true)
+    (keys : List PKey) (gevs : List GEv) (k : PKey) (st : St)
+    (hl : (k, st) ∈ runGrid cfg (Grid.init keys) gevs) (hw : st.walGone = true) (s : Int) (m t : Nat)
+    (h0 : 0 ≤ s) (hs : st.log[s.toNat]? = some (some (m, t))) :
+    ∃ r ∈ fileRows st, r.seq = s := by
+  have he := grid_trace cfg keys gevs (k, st) hl
+  simp only [] at he
+  subst he
+  exact wal_gone_all_flushed cfg hx _ (gapFree_init cfg hc _) hw s m t h0 hs
+
+/-- flushed data resolves by name in every partition of the grid whose projection keeps the flush
+discipline (the discipline is per lane: it speaks about the names that lane sees, and the lanes of other
+family hours and shards see the names a write creates through `foreignNames` / `foreignMetric` / `foreignTagv`) -/
+theorem resolves_grid_partial (cfg : Cfg) (keys : List PKey) (gevs : List GEv) (k : PKey) (st : St)
+    (hl : (k, st) ∈ runGrid cfg (Grid.init keys) gevs)
+    (hd : Disciplined cfg St.init (laneTrace cfg (Grid.init keys) gevs k)) : Resolves st := by
+  have he := grid_trace cfg keys gevs (k, st) hl
+  simp only [] at he
+  subst he
+  exact resolves_partial cfg _ hd
+
+/-- non-vacuity and shape: 2 shards x 2 family hours (+ a follower log in one family): a write in shard 0 /
+hour 0, one in shard 1 / hour 1, one whole `doFlush` round over both shards, a late write, a crash, a
+recovery walk that dies after the second partition, a whole recovery walk -/
+def gridKeys : List PKey := [⟨0, 0, 1⟩, ⟨0, 0, 2⟩, ⟨0, 1, 1⟩, ⟨1, 0, 1⟩, ⟨1, 1, 1⟩]
+
+def gridTrace : List GEv :=
+  [.lane ⟨0, 0, 1⟩ (.append 0 0)] ++ applyRound.map (GEv.lane ⟨0, 0, 1⟩) ++
+  [.lane ⟨1, 1, 1⟩ (.append 0 0), .lane ⟨1, 1, 1⟩ (.append 7 7)] ++ applyRound.map (GEv.lane ⟨1, 1, 1⟩) ++
+  doFlushRound [(0, [0, 1]), (1, [0, 1])] ++
+  applyRound.map (GEv.lane ⟨1, 1, 1⟩) ++
+  [.crash, .walkCrash 2 true, .restart]
+
+example :
+    ((runGrid ⟨true, true, true⟩ (Grid.init gridKeys) gridTrace).map
+      (fun p => (p.2.stored, p.2.groupAck, p.2.consumed, (fileRows p.2).length, p.2.log.length))) =
+    [(some 0, 0, 0, 1, 1), (none, -1, -1, 0, 0), (none, -1, -1, 0, 0), (none, -1, -1, 0, 0), (some 0, 0, 0, 1, 2)] := by decide
+
+/-- ... and the names: the metric is durable database-wide, the series in the index of BOTH shards (each wrote it) -/
+example :
+    ((runGrid ⟨true, true, true⟩ (Grid.init gridKeys) gridTrace).map
+      (fun p => (p.2.metric.dur, p.2.tagv.dur, p.2.index.dur, p.2.phase))) =
+    [([0], [(0, 0)], [(0, 0)], Phase.running), ([0], [(0, 0)], [(0, 0)], Phase.running), ([0], [(0, 0)], [(0, 0)], Phase.running),
+     ([0], [(0, 0)], [(0, 0)], Phase.running), ([0], [(0, 0)], [(0, 0)], Phase.running)] := by decide
+
+/-- the discipline holds on every lane of that history up to the flush round (so `resolves_grid_partial` is not vacuous) -/
+example : ∀ k ∈ gridKeys, Disciplined ⟨true, true, true⟩ St.init
+    (laneTrace ⟨true, true, true⟩ (Grid.init gridKeys) (gridTrace.take 24) k) := by decide
+
+/-- graceful shutdown of the 2 x 2 node: metadata once, the index of EVERY shard, then per shard the index
+once more and `dataFamily.Close` of every family hour -/
+example : shutdownGrid (Grid.init gridKeys) =
+    [.db .metaPrepare, .db .metaFlushMetric, .db .metaFlushTagv,
+     .shard 0 .indexPrepare, .shard 0 .indexFlush, .shard 1 .indexPrepare, .shard 1 .indexFlush,
+     .shard 0 .indexPrepare, .shard 0 .indexFlush] ++ famClose 0 0 ++ famClose 0 1 ++
+    [.shard 1 .indexPrepare, .shard 1 .indexFlush] ++ famClose 1 0 ++ famClose 1 1 := by decide
+
+/-- `shutdownUpTo` followed by the family's Close is a prefix of the shutdown (the crash points the harness
+takes inside the shutdown are points of `shutdownGrid`) -/
+example : ∀ k ∈ gridKeys, (shutdownGrid (Grid.init gridKeys)).take
+      (shutdownUpTo (Grid.init gridKeys) k.shard k.family ++ famClose k.shard k.family).length =
+    shutdownUpTo (Grid.init gridKeys) k.shard k.family ++ famClose k.shard k.family := by decide
+
+open LinVerif.Generated.C07Loops in
+/-- the outer loops of the code are the ones the grid model is the product over: the recovery walk
+(`Recovery` -> per database `recovery` -> shards -> family hours -> leaders: `GetOrCreatePartition`,
+`partition.recovery`; an error ends the walk: `restart` / `walkCrash`), the WAL garbage collector
+(`garbageCollect` -> `destroy`: `IsExpire` of EVERY partition under the lock, then `Stop`, `Close`,
+remove the directory of each expired one, then the empty family directories; `IsExpire` tests every consumer group's
+`IsEmpty`: `walGcTick`), the flush checker (`doFlush`: metadata once, then `flushShard` per shard: index once,
+then `family.Flush` per family: `doFlushRound`), the graceful shutdown (`engine.Close` -> per database
+`database.Close`: metadata, `FlushIndex` of every shard, `Close` of every shard -> index, segment ->
+`family.Close` of every family: `shutdownGrid`), and family eviction (`Evict`: nothing while a replicator
+holds the family or a memory database exists; otherwise `Close`, then the segment forgets the family) -/
+theorem outer_loops_are_code :
+    managerRecoveryNest = ["fileExistFn", "listDirFn", "range databaseNames {", "w.GetOrCreateLog", "log.recovery", "return", "}"] ∧
+    walRecoveryNest = ["listDirFn", "range shards {", "listDirFn", "return", "range families {", "listDirFn", "return",
+      "removeDirFn", "continue", "range leaders {", "w.GetOrCreatePartition", "return", "partition.recovery", "return",
+      "}", "}", "}"] ∧
+    managerGcNest = ["range w.databaseLogs {", "}", "range logs {", "log.destroy", "}"] ∧
+    walDestroyNest = ["mutex.Lock", "range w.familyLogs {", "log.IsExpire", "}", "mutex.Unlock",
+      "range expireLogs {", "log.Stop", "log.Close", "removeDirFn", "}",
+      "range expireFamilies {", "listDirFn", "continue", "continue", "removeDirFn", "}"] ∧
+    isExpireNest = ["log.Sync", "log.Queue().GC", "log.ConsumerGroupNames", "range ns {", "consumerGroup.IsEmpty",
+      "continue", "p.stopReplicator", "}"] ∧
+    doFlushNest = ["db.FlushMeta", "db.WaitFlushMetaCompleted", "range request.shards {", "fc.flushShard", "}"] ∧
+    flushShardNest = ["shard.FlushIndex", "shard.WaitFlushIndexCompleted", "range request.families {", "family.Flush", "}"] ∧
+    engineCloseNest = ["range e.dbSet.Entries() {", "db.Close", "}"] ∧
+    databaseCloseNest = ["db.WaitFlushMetaCompleted", "db.flushMeta", "memMetaDB.Close",
+      "range db.shardSet.Entries() {", "thisShard.FlushIndex", "}", "metaDB.Close",
+      "range db.shardSet.Entries() {", "thisShard.Close", "}"] ∧
+    shardCloseNest = ["s.WaitFlushIndexCompleted", "s.flushIndex", "memIndexDB.Close", "indexDB.Close", "segment.Close",
+      "range s.rollupTargets {", "rollupSegment.Close", "}"] ∧
+    intervalSegmentCloseNest = ["range s.segments {", "segment.Close", "}"] ∧
+    segmentCloseNest = ["range s.families {", "family.Close", "}"] ∧
+    familyEvictNest = ["ref.Load", "mutex.Lock", "mutex.Unlock", "mutex.Unlock", "closeFamilyFunc", "segment.EvictFamily"] := by
+  decide
 
 end LinVerif.Props.C07
